@@ -20,6 +20,64 @@ inductive TT where
   | INSERT | RESERVE | BREAK | CONTINUE | COMPONENT | SLOT | DUMP
   deriving DecidableEq, Repr, Inhabited
 
+/-- the Go identifier of the constant -/
+def TT.name : TT → String
+  | .ILLEGAL => "ILLEGAL"
+  | .EOF => "EOF"
+  | .IDENT => "IDENT"
+  | .HTML => "HTML"
+  | .INT => "INT"
+  | .FLOAT => "FLOAT"
+  | .STR => "STR"
+  | .ADD => "ADD"
+  | .SUB => "SUB"
+  | .MUL => "MUL"
+  | .DIV => "DIV"
+  | .MOD => "MOD"
+  | .INC => "INC"
+  | .DEC => "DEC"
+  | .NOT => "NOT"
+  | .ASSIGN => "ASSIGN"
+  | .EQ => "EQ"
+  | .NOT_EQ => "NOT_EQ"
+  | .LTHAN => "LTHAN"
+  | .GTHAN => "GTHAN"
+  | .LTHAN_EQ => "LTHAN_EQ"
+  | .GTHAN_EQ => "GTHAN_EQ"
+  | .LBRACES => "LBRACES"
+  | .RBRACES => "RBRACES"
+  | .LBRACE => "LBRACE"
+  | .RBRACE => "RBRACE"
+  | .LPAREN => "LPAREN"
+  | .RPAREN => "RPAREN"
+  | .LBRACKET => "LBRACKET"
+  | .RBRACKET => "RBRACKET"
+  | .QUESTION => "QUESTION"
+  | .COLON => "COLON"
+  | .COMMA => "COMMA"
+  | .DOT => "DOT"
+  | .SEMI => "SEMI"
+  | .TRUE => "TRUE"
+  | .FALSE => "FALSE"
+  | .NIL => "NIL"
+  | .IN => "IN"
+  | .IF => "IF"
+  | .ELSE => "ELSE"
+  | .ELSE_IF => "ELSE_IF"
+  | .END => "END"
+  | .FOR => "FOR"
+  | .USE => "USE"
+  | .EACH => "EACH"
+  | .BREAK_IF => "BREAK_IF"
+  | .CONTINUE_IF => "CONTINUE_IF"
+  | .INSERT => "INSERT"
+  | .RESERVE => "RESERVE"
+  | .BREAK => "BREAK"
+  | .CONTINUE => "CONTINUE"
+  | .COMPONENT => "COMPONENT"
+  | .SLOT => "SLOT"
+  | .DUMP => "DUMP"
+
 structure Pos where
   startLine : Nat := 0
   startCol : Nat := 0
